@@ -269,8 +269,15 @@ func c15guarded(p *core.Prog, li *core.LockInfo, fn *ssa.Function, ins ssa.Instr
 			// closure passed to a wrapper: the wrapper's parameter bound to the actual whose path is base
 			g := s.Caller
 			nb = ""
+			obase := base
+			if s.Bound != nil {
+				// bound method value: base is a field of the receiver; name it in the frame that built the receiver
+				if q := core.ReceiverFieldPath(s.Bound, fn, base); q != "" {
+					obase = q
+				}
+			}
 			for i, a := range s.Outer.Call.Args {
-				if i < len(g.Params) && core.Path(a) == base {
+				if i < len(g.Params) && core.Path(a) == obase {
 					nb = g.Params[i].Name()
 				}
 			}
